@@ -200,6 +200,8 @@ func g2words(r *Rng, max int) []string {
 	return l
 }
 
+var curPool []carapace.Action
+
 // buildExpr consumes one expression from the token list
 func buildExpr(t []string) (carapace.Action, []string) {
 	head, t := t[0], t[1:]
@@ -222,6 +224,33 @@ func buildExpr(t []string) (carapace.Action, []string) {
 	case "M":
 		m := t[0]
 		return carapace.ActionMessage(m), t[1:]
+	case "MF": // ActionMessage(format, arg)
+		pre, suf, arg := t[0], t[1], t[2]
+		return carapace.ActionMessage(strings.ReplaceAll(pre, "%", "%%")+"%v"+strings.ReplaceAll(suf, "%", "%%"), arg), t[3:]
+	case "SH": // a static Action built once and shared by every invocation
+		ns, us := t[0], t[1]
+		t = t[2:]
+		msgs := list()
+		var vals []rawSpec
+		vals, t = takeRaws(t)
+		shared := importAction(vals, msgs, ns, us).Invoke(carapace.Context{}).ToA()
+		return carapace.ActionCallback(func(c carapace.Context) carapace.Action { return shared }), t
+	case "SE": // a callback that sets a variable in its own Context and invokes the action beneath it
+		k, v := t[0], t[1]
+		t = t[2:]
+		a := sub()
+		return carapace.ActionCallback(func(c carapace.Context) carapace.Action {
+			c.Setenv(k, v)
+			return a.Invoke(c).ToA()
+		}), t
+	case "GE":
+		k := t[0]
+		return carapace.ActionCallback(func(c carapace.Context) carapace.Action {
+			return carapace.ActionValues("E" + c.Getenv(k))
+		}), t[1:]
+	case "REF":
+		i := atoi(t[0])
+		return curPool[i], t[1:]
 	case "C":
 		return carapace.ActionCallback(func(c carapace.Context) carapace.Action {
 			return carapace.ActionValues("V"+c.Value, "A"+strings.Join(c.Args, "\x1f"), "P"+strings.Join(c.Parts, "\x1f"))
